@@ -136,6 +136,11 @@ def unvisited_in_entry(ctx: TermCtx, fi: FuncInfo) -> List[Tuple[ast.Return, Ter
             continue
         raw = {r for r in raw0 if not any(r == at and fa.cfg.dominates(cn, n) for cn, at in cleaners)}
         t = strip_sites(fa.term_of(s.value, n))
+        from .terms import dynamic_dispatch
+
+        dd = dynamic_dispatch(t)
+        if dd is not None and any(leaks(a_, raw) for a_ in dd[2]):
+            raise AnalysisError(f"{fi.name} calls a method chosen with getattr(self, <computed name>): whether its arguments are visited cannot be decided from the shape of the code")
         for lk in leaks(t, raw):
             res.append((s, lk, t))
     return res
@@ -172,3 +177,80 @@ def substituters(model: Model, ctx: TermCtx) -> List[ClassInfo]:
         if rt != nodep:
             out.append(ci)
     return out
+
+
+LITERAL_KINDS = ("ast.Tuple", "ast.List", "ast.Dict")
+
+
+def _delegate(model, cls, h):
+    """follow `def h(self, a, b): return self.g(a, b)` (a handler that only forwards to a shared implementation)"""
+    import ast as _ast
+
+    for _ in range(3):
+        body = [st for st in h.node.body if not (isinstance(st, _ast.Expr) and isinstance(st.value, _ast.Constant))]
+        if len(body) != 1 or not isinstance(body[0], _ast.Return) or not isinstance(body[0].value, _ast.Call):
+            return h
+        c = body[0].value
+        if not (isinstance(c.func, _ast.Attribute) and isinstance(c.func.value, _ast.Name) and c.func.value.id == h.pos_params[0] and not c.keywords):
+            return h
+        if [getattr(a, "id", None) for a in c.args] != h.pos_params[1:]:
+            return h
+        g = model.find_method(cls, c.func.attr)
+        if g is None or len(g.pos_params) != len(h.pos_params):
+            return h
+        h = g
+    return h
+
+
+def projection_handlers(model, ctx, cls, vs):
+    """{'ast.Tuple': (handler, call), ..}: the methods of cls that visit_Subscript hands (visited value, visited
+    selector) to, keyed by the literal class the call is conditional on.  Recognises an if-chain of exact type
+    tests and a module-level {ast class: method name} table consulted with type(<visited value>)."""
+    import ast as _ast
+
+    from .lib import Facts, calls_in
+    from .terms import strip_sites
+
+    fa = ctx.analysis(vs)
+    nodep = ("param", vs.pos_params[1])
+    V = ("visit", ("attr", nodep, "value"))
+    out = {}
+    tests = []  # (subject term, kind label, stmt) - the dispatch tests made through a table
+    for c in calls_in(vs):
+        if not fa.cfg.has_node(c) or len(c.args) != 2:
+            continue
+        f = c.func
+        if isinstance(f, _ast.Attribute) and isinstance(f.value, _ast.Name) and f.value.id == vs.pos_params[0] and f.attr != "visit":
+            h = model.find_method(cls, f.attr)
+            if h is None or strip_sites(fa.term_of(c.args[0])) != V:
+                continue
+            fx = Facts(fa, c)
+            for k in LITERAL_KINDS:
+                if fx.isinstance_of(V, {k}):
+                    out[k] = (_delegate(model, cls, h), c)
+        elif isinstance(f, _ast.Call) and isinstance(f.func, _ast.Name) and f.func.id == "getattr" and len(f.args) == 2:
+            if strip_sites(fa.term_of(f.args[0])) != ("param", vs.pos_params[0]) or strip_sites(fa.term_of(c.args[0])) != V:
+                continue
+            t = strip_sites(fa.term_of(f.args[1]))
+            table = None
+            if t[0] == "app" and t[1][0] == "global" and t[1][1].endswith(".get") and len(t[2]) == 1:
+                table, key = t[1][1][: -len(".get")], t[2][0]
+            elif t[0] == "subscript" and t[1][0] == "global":
+                table, key = t[1][1], t[2]
+            if table is None or key != ("app", ("global", "builtins.type"), (V,), ()):
+                continue
+            modname, _, var = table.rpartition(".")
+            try:
+                lit = model.module(modname).assigns.get(var)
+            except Exception:
+                lit = None
+            if not isinstance(lit, _ast.Dict):
+                continue
+            for k_, v_ in zip(lit.keys, lit.values):
+                kk = _ast.unparse(k_) if k_ is not None else None
+                if kk in LITERAL_KINDS and isinstance(v_, _ast.Constant) and isinstance(v_.value, str):
+                    h = model.find_method(cls, v_.value)
+                    if h is not None:
+                        out[kk] = (_delegate(model, cls, h), c)
+                        tests.append((V, kk.split(".")[-1], c))
+    return out, tests
